@@ -1,7 +1,8 @@
 //! C02 — root rotation follows an unbroken, doubly-signed, forward-only chain.
 
 use crate::classify::{classify, variant, Class};
-use crate::engine::{block_on, Check, Outcome, Tier};
+use crate::engine::{block_on, Check, Outcome, Scratch, Tier};
+use crate::json::{self, J};
 use crate::keys::{self, Alg, K};
 use crate::prng::Rng;
 use crate::publisher::*;
@@ -71,6 +72,11 @@ pub struct Sc {
     pub meta_epoch: usize,
     /// availability fault on the request for root version `v`
     pub avail: Option<(u64, Avail)>,
+    /// an earlier clean cycle of the same client on the same datastore, at a time when the chain
+    /// ended this many good hops beyond the shipped root (clamped to what the reference walk
+    /// reaches); metadata then was signed with the online keys of the root trusted then
+    #[serde(default)]
+    pub prior: Option<u64>,
 }
 
 pub struct C02;
@@ -230,6 +236,9 @@ struct Reference {
     requests: Vec<u64>,
     /// a document that must not be adopted was on the way (served and parsable or not)
     stopped_by_bad_hop: bool,
+    /// the roots trusted along the way: (version, epoch, number of the file it was fetched as;
+    /// 0 for the shipped root)
+    trail: Vec<(u64, usize, u64)>,
 }
 
 fn unavailable(sc: &Sc, v: u64) -> Option<Avail> {
@@ -244,6 +253,7 @@ fn reference_walk(sc: &Sc, chain: &[Option<Served>]) -> Reference {
     let mut cur_root = ship.own_root.clone();
     let mut requests = Vec::new();
     let mut stopped_by_bad_hop = false;
+    let mut trail = vec![(cur_version, cur_epoch, 0u64)];
     loop {
         let v = cur_version + 1;
         requests.push(v);
@@ -261,6 +271,7 @@ fn reference_walk(sc: &Sc, chain: &[Option<Served>]) -> Reference {
             cur_epoch = info.epoch;
             cur_version = info.version;
             cur_root = info.own_root.clone();
+            trail.push((cur_version, cur_epoch, v));
             if requests.len() > 64 {
                 break;
             }
@@ -269,7 +280,7 @@ fn reference_walk(sc: &Sc, chain: &[Option<Served>]) -> Reference {
             break;
         }
     }
-    Reference { shipped_ok, final_epoch: cur_epoch, final_version: cur_version, requests, stopped_by_bad_hop }
+    Reference { shipped_ok, final_epoch: cur_epoch, final_version: cur_version, requests, stopped_by_bad_hop, trail }
 }
 
 fn gen_epochs(r: &mut Rng, n: usize) -> Vec<Epoch> {
@@ -343,7 +354,7 @@ impl Check for C02 {
         "C02"
     }
     fn rule(&self) -> String {
-        "root chain of 1..5 versions with a rotation kind per hop (same, disjoint, overlapping, threshold up/down, algorithm change, key added), shipped root anywhere on the chain (optionally not self-verifying), at most one broken hop (10 kinds), top-level metadata signed with the online keys of any epoch, optional availability fault (fetch/stream x not-found/other) on one root request; non-trivial = a broken hop, revoked-key metadata, unsigned shipped root or availability fault was actually reached by the client; distinct = distinct canonical trace".into()
+        "root chain of 1..5 versions with a rotation kind per hop (same, disjoint, overlapping, threshold up/down, algorithm change, key added), shipped root anywhere on the chain (optionally not self-verifying), at most one broken hop (10 kinds), top-level metadata signed with the online keys of any epoch, optional availability fault (fetch/stream x not-found/other) on one root request, and in a third of the runs a datastore left by an earlier clean cycle that ended 0..3 good hops beyond the shipped root; the root trusted at the end is compared by content, not only by version; non-trivial = a broken hop, revoked-key metadata, unsigned shipped root or availability fault was actually reached by the client; distinct = distinct canonical trace".into()
     }
     fn assumptions(&self) -> Vec<String> {
         vec!["ground truth = harness bookkeeping of who signed each root document".into(), "no expiry in this check (C04)".into()]
@@ -365,7 +376,7 @@ impl Check for C02 {
         ]
     }
     fn required_probes(&self, _t: Tier) -> Vec<&'static str> {
-        vec!["walked_full_good_chain", "stopped_before_bad_hop", "rotation_with_disjoint_keys_followed"]
+        vec!["walked_full_good_chain", "stopped_before_bad_hop", "rotation_with_disjoint_keys_followed", "warm_datastore_from_earlier_cycle"]
     }
     fn generate(&self, seed: u64, _tier: Tier) -> Sc {
         let mut r = Rng::new(seed);
@@ -394,12 +405,16 @@ impl Check for C02 {
             broken,
             meta_epoch,
             avail,
+            prior: if r.chance(1, 3) { Some(r.below(4)) } else { None },
         }
     }
     fn shrink(&self, sc: &Sc) -> Vec<Sc> {
         let mut v = Vec::new();
         if sc.avail.is_some() {
             v.push(Sc { avail: None, ..sc.clone() });
+        }
+        if sc.prior.is_some() {
+            v.push(Sc { prior: None, ..sc.clone() });
         }
         if sc.consistent {
             v.push(Sc { consistent: false, ..sc.clone() });
@@ -463,6 +478,7 @@ impl Check for C02 {
 
         let roots: Vec<Option<Vec<u8>>> = chain.iter().map(|s| s.as_ref().map(|s| s.bytes.clone())).collect();
         let avail = sc.avail;
+        let roots_all = roots.clone();
         let transport = SimTransport::new(move |r| {
             if r.base != Base::Metadata {
                 return Resp::not_found();
@@ -497,13 +513,57 @@ impl Check for C02 {
             "ref shipped_ok={} final_v={} requests={:?} bad_hop={} meta_ok={}",
             reference.shipped_ok, reference.final_version, reference.requests, reference.stopped_by_bad_hop, meta_ok_under_final
         ));
+        // ---- an earlier clean cycle on the same datastore (only for a self-verifying shipped root)
+        let scratch = Scratch::new();
+        let ds = scratch.dir("datastore");
+        let mut warm = false;
+        if let (Some(hops), true) = (sc.prior, reference.shipped_ok) {
+            let (then_version, then_epoch, then_file) = reference.trail[(hops as usize).min(reference.trail.len() - 1)];
+            let mut spec_then = world::RepoSpec::basic(sc.world, sc.consistent);
+            spec_then.root = root_spec(sc, then_epoch, then_version);
+            let built_then = world::build(&spec_then);
+            let mut files_then = built_then.files.meta.clone();
+            files_then.retain(|k, _| !k.ends_with(".root.json"));
+            let roots_then = roots_all.clone();
+            let t_then = SimTransport::new(move |r| {
+                if r.base != Base::Metadata {
+                    return Resp::not_found();
+                }
+                if let Some(v) = r.rel.strip_suffix(".root.json").and_then(|v| v.parse::<u64>().ok()) {
+                    return match roots_then.get((v as usize).wrapping_sub(1)) {
+                        Some(Some(b)) if v <= then_file => Resp::whole(b),
+                        _ => Resp::not_found(),
+                    };
+                }
+                files_then.get(&r.rel).map_or(Resp::not_found(), |b| Resp::whole(b))
+            });
+            let sb = shipped_bytes.clone();
+            let ds2 = ds.clone();
+            let then = block_on(async move { world::load(&sb, t_then, Some(&ds2), world::LoadOpts::default()).await.map(|r| r.root().signed.version.get()).map_err(|e| variant(&e)) });
+            o.ev(format!("prior cycle up to root v{then_version}: {then:?}"));
+            match then {
+                Ok(v) if v == then_version => warm = true,
+                Ok(v) => {
+                    o.violate("stopped-early", format!("an earlier clean cycle ended at root {v}; every hop up to {then_version} is properly double-signed"));
+                    return o;
+                }
+                Err(e) => {
+                    o.harness(format!("the earlier clean cycle failed with {e}"));
+                    return o;
+                }
+            }
+        }
         let t2 = transport.clone();
+        let ds3 = ds.clone();
         let res = block_on(async move {
-            match world::load(&shipped_bytes, t2, None, world::LoadOpts::default()).await {
-                Ok(repo) => Ok(repo.root().signed.version.get()),
+            match world::load(&shipped_bytes, t2, Some(&ds3), world::LoadOpts::default()).await {
+                Ok(repo) => Ok((repo.root().signed.version.get(), serde_json::to_value(&repo.root().signed).ok())),
                 Err(e) => Err((classify(&e), variant(&e))),
             }
         });
+        // the root the client ends up trusting, content-wise
+        let final_content = res.as_ref().ok().and_then(|(_, v)| v.as_ref()).and_then(J::try_from_value).and_then(|j| json::canon(&j));
+        let res = res.map(|(v, _)| v);
         let log = transport.log();
         let root_reqs: Vec<u64> = log.iter().filter_map(|l| l.rel.strip_suffix(".root.json").and_then(|v| v.parse().ok())).collect();
         o.ev(format!("load={:?} root_requests={:?}", res.as_ref().map_err(|e| (e.0.name(), e.1.clone())), root_reqs));
@@ -525,6 +585,13 @@ impl Check for C02 {
                         "stopped-early".to_string()
                     };
                     o.violate(key, format!("cycle succeeded with root version {v}; the last root reachable by acceptable hops is {}", reference.final_version));
+                }
+                if *v == reference.final_version {
+                    // same number is not enough: it has to be the document the walk verified
+                    let want = chain[reference.final_epoch].as_ref().and_then(|s| J::parse(&s.bytes)).and_then(|d| d.get("signed").cloned()).and_then(|sg| json::canon(&sg));
+                    if want.is_some() && final_content != want {
+                        o.violate("final-root-content-differs", format!("the cycle ended with a root of version {v} whose content is not that of the last properly double-signed root"));
+                    }
                 }
                 if !meta_ok_under_final {
                     o.violate("revoked-online-keys-accepted", format!("top-level metadata signed with the online keys of epoch {} was accepted under final root epoch {}", sc.meta_epoch, reference.final_epoch));
@@ -586,6 +653,9 @@ impl Check for C02 {
         if !reference.shipped_ok {
             o.fault("shipped_root_not_self_verifying");
             fired = true;
+        }
+        if warm {
+            o.probe("warm_datastore_from_earlier_cycle");
         }
         o.nontrivial = fired || (sc.shipped < n - 1 && res.is_ok());
         o
